@@ -138,7 +138,7 @@ class C16(RecheckProp):
     def cases(self, tier, rng):
         n = 2500 if tier == "thorough" else 420
         out = []
-        cl = ["C16.stream", "C16.total", "C16.ppm"]
+        cl = ["C16.stream", "C16.total", "C16.ppm", "M16.impl"]
         for k in range(n):
             v = (1, 2, 3)[k % 3]
             src = SRCS[v][(k // 3) % len(SRCS[v])]
